@@ -151,3 +151,17 @@ func TestText(t *testing.T) {
 	expect(t, "text bad", y.run(0, 0), map[string]int{"reply:text:foreign-lock-id": 1, "reply:text:late-reply-taken-for-current": 1,
 		"reply:missing:text": 1, "reply:text:unsolicited": 1})
 }
+
+// the same mechanism without unlock-first: a client pipelines UNLOCK(cancel-wait) behind its own LOCK; the LOCK was
+// granted by a wake-up pass whose reply is parked; the UNLOCK frees the object, the next LOCK of the connection reuses it
+func TestRecycleByIdWithDuplicate(t *testing.T) {
+	y := newSynth(1)
+	x := y.req(0, protocol.COMMAND_LOCK, kCancel, lk(1), 0, 0, 60)
+	u := y.req(0, protocol.COMMAND_UNLOCK, kCancel, lk(1), protocol.UNLOCK_FLAG_CANCEL_WAIT_LOCK_WHEN_UNLOCKED, 0, 60)
+	y.reply(0, u, protocol.RESULT_SUCCED, lk(1))
+	r := y.req(0, protocol.COMMAND_LOCK, kCancel, lk(2), 0, 0, 60)
+	y.reply(0, r, protocol.RESULT_SUCCED, lk(2))      // x's parked reply, built from r's fields
+	y.reply(0, r, protocol.RESULT_UNLOCK_ERROR, lk(2)) // r's genuine reply (cancelled)
+	_ = x
+	expect(t, "recycle by id", y.run(0, 0), map[string]int{sigRecycleById: 1})
+}
